@@ -817,8 +817,11 @@ func (x *Exec) frameCheck(st *State, fr *Frame, base map[string]Term, baseWM Ter
 		if strings.HasPrefix(comp, "C!") || strings.HasPrefix(comp, "B!") {
 			// cells and closure objects: only fresh ones may be written unless declared
 		}
-		if strings.HasPrefix(comp, "A!") || strings.HasPrefix(comp, "R!") || comp == "T!" || strings.HasPrefix(comp, "TS!") || strings.HasPrefix(comp, "CS!") || strings.HasPrefix(comp, "D!") || strings.HasPrefix(comp, "DA!") || strings.HasPrefix(comp, "DR!") || strings.HasPrefix(comp, "L!") || strings.HasPrefix(comp, "MU!") || strings.HasPrefix(comp, "ONCE!") || strings.HasPrefix(comp, "WG!") {
+		if strings.HasPrefix(comp, "A!") || strings.HasPrefix(comp, "R!") || comp == "T!" || strings.HasPrefix(comp, "TS!") || strings.HasPrefix(comp, "CS!") || strings.HasPrefix(comp, "D!") || strings.HasPrefix(comp, "DA!") || strings.HasPrefix(comp, "DR!") || strings.HasPrefix(comp, "L!") {
 			continue // argument logs are covered by their N! counter
+		}
+		if !strings.HasPrefix(name, "loop") && (strings.HasPrefix(comp, "MU!") || strings.HasPrefix(comp, "ONCE!") || strings.HasPrefix(comp, "WG!")) {
+			continue // lock / once / wait-group state is not part of a function's frame; a loop cut keeps it, so a loop body must restore it
 		}
 		ls := byComp[comp]
 		whole := false
